@@ -1666,12 +1666,13 @@ func ValueEqual(a *VMValue, b *VMValue, autoConvert bool) bool {
 		case VMTypeDict:
 			d1 := a.MustReadDictData()
 			d2 := b.MustReadDictData()
-			if len(d1.Dict.dirty) != len(d2.Dict.dirty) {
+			if d1.Dict.Length() != d2.Dict.Length() {
 				return false
 			}
 			isSame := true
 			d1.Dict.Range(func(key string, value *VMValue) bool {
-				isEqual := ValueEqual(value, d2.Dict.MustLoad(key), autoConvert)
+				other, exists := d2.Dict.Load(key)
+				isEqual := exists && ValueEqual(value, other, autoConvert)
 				if !isEqual {
 					isSame = false
 					return false
